@@ -32,6 +32,10 @@ CLAIMED = {
  'C05': ('proptest-generated two-way diffs x tagged option sets with number-format grammar; reference line counter; gutter cells read by tag',
          'Exploration: the integers shown in the number cells of every rendered row must equal what an independent old/new counter gives for that hunk line (both views, all generated formats); continuation rows carry none; hunk-header rows show the new-file start and the path.',
          'Trusted: terminal model, tag attribution of gutter cells, reference counter; side-by-side formats restricted to {nm} left / {np} right.', '3/C05'),
+
+ 'C07': ('proptest-generated boundary-straddling diffs x tagged side-by-side option sets; panels split at the gutters; geometry invariants + fragment reassembly oracle',
+         'Exploration: for every generated case the decoded side-by-side rows must respect the configured width, a fixed right-panel column, side exclusivity of removed/added styling, lossless reassembly of every wrapped line per side, truncation only after all allowed rows (with mark and prefix), and row sharing of paired lines at maximal distance.',
+         'Trusted: terminal model and unicode-width tables; line numbers on with {nm} left / {np} right formats; ansi fill method not covered.', '3/C07'),
 }
 hook_commits = subprocess.check_output(['git','-C','/repo','log','--format=%H','--grep','^verif hook:'],text=True).split()
 checks = []
